@@ -667,6 +667,133 @@ func runC07(p *core.Prog, r *core.Report, tier string) {
 	// ---- (m) one failing node does not take the requests to the others down ----
 	checkNoFailFastContext(p, r, "C07.m", []string{"strategies/"}, "a node that fails fast aborts the requests to the nodes that would have answered")
 
+	// ---- (n) the head-nearness bonus of the attestation data score is given whenever the head's slot is known and
+	// not after the attestation slot: the only branches that can withhold it are the lookup's error test and
+	// "head slot > attestation slot" (strictly: a head in the attestation slot itself gets the full bonus) ----
+	nBonus := 0
+	for _, f := range fns {
+		if !strings.HasSuffix(core.RelPkg(f.Pkg.Pkg.Path()), "attestationdata/best") || !strings.HasPrefix(strings.ToLower(f.Name()), "score") {
+			continue
+		}
+		core.EachInstr(f, func(in ssa.Instruction) {
+			add, ok := in.(*ssa.BinOp)
+			if !ok || add.Op != token.ADD {
+				return
+			}
+			if b, ok := add.Type().Underlying().(*types.Basic); !ok || b.Kind() != types.Float64 {
+				return
+			}
+			if !ds.D(add).Any(func(x *core.VD) bool { return x.Kind == "binop" && x.Name == "/" }) {
+				return
+			}
+			nBonus++
+			k := 0
+			for _, ifi := range decidingIfs(f, in) {
+				k++
+				c := core.DecodeCond(ds, ifi.If)
+				okCond, why := false, "unrecognised condition"
+				switch {
+				case c.Op != "" && (c.X.Kind == "const" && c.X.Name == "nil" || c.Y.Kind == "const" && c.Y.Name == "nil"):
+					okCond = true
+				case c.Op != "":
+					dataSide := func(d *core.VD) bool { return d.Kind == "field" && d.Name == "Slot" }
+					rel := c.RelOnEdge(ifi.SkipEdge) // X rel Y on the edge that skips the bonus
+					if dataSide(c.X) && !dataSide(c.Y) {
+						rel = core.FlipRel(rel) // express as head rel data
+					} else if !(dataSide(c.Y) && !dataSide(c.X)) {
+						break
+					}
+					if rel == ">" {
+						okCond = true
+					} else {
+						why = "the bonus is withheld when the head slot is '" + rel + "' the attestation slot"
+					}
+				}
+				r.Check(okCond, "C07.n", fmt.Sprintf("%s|bonus#%d|withheld-only#%d", core.FnKey(f), nBonus, k), p.Pos(core.IfPos(ifi.If)), "the head-nearness bonus is withheld only on a failed lookup or a head after the attestation slot",
+					"the head-nearness bonus can be withheld for a head that is not after the attestation slot ("+why+"): the most timely attestation data scores below data with an older head, so 'best' does not return the highest-scoring response")
+			}
+		})
+	}
+	r.Floor("C07.n head-nearness bonuses", nBonus, 1)
+
+	// ---- (o) the tally a majority is taken from belongs to the call: in the majority strategies no map or slice
+	// that is written per response is held in the service (two overlapping requests would count each other's votes
+	// and wipe each other's tallies) ----
+	nTally, nShared := 0, 0
+	for _, f := range fns {
+		if !strings.HasSuffix(core.RelPkg(f.Pkg.Pkg.Path()), "/majority") {
+			continue
+		}
+		top := f
+		for top.Parent() != nil {
+			top = top.Parent()
+		}
+		if top.Signature.Recv() == nil || top.Name() == "New" {
+			continue
+		}
+		fromService := func(v ssa.Value) (string, bool) {
+			for depth := 0; depth < 6 && v != nil; depth++ {
+				switch x := v.(type) {
+				case *ssa.UnOp:
+					if fa, ok := x.X.(*ssa.FieldAddr); ok {
+						if id, _, ok := core.FieldOfAddr(fa); ok && strings.HasSuffix(id.Owner, ".Service") {
+							return id.String(), true
+						}
+					}
+					if a, ok := x.X.(*ssa.Alloc); ok && a.Referrers() != nil {
+						v = nil
+						for _, ref := range *a.Referrers() {
+							if st, ok := ref.(*ssa.Store); ok && st.Addr == ssa.Value(a) {
+								v = st.Val
+							}
+						}
+						continue
+					}
+					return "", false
+				case *ssa.Phi:
+					for _, e := range x.Edges {
+						if w, ok := e.(*ssa.UnOp); ok {
+							v = w
+						}
+					}
+					if v == ssa.Value(x) {
+						return "", false
+					}
+					continue
+				case *ssa.FreeVar:
+					v = core.FreeVarBinding(x)
+					continue
+				default:
+					return "", false
+				}
+			}
+			return "", false
+		}
+		core.EachInstr(f, func(in ssa.Instruction) {
+			var m ssa.Value
+			switch x := in.(type) {
+			case *ssa.MapUpdate:
+				m = x.Map
+			case *ssa.Call:
+				if b, ok := x.Call.Value.(*ssa.Builtin); ok && (b.Name() == "clear" || b.Name() == "delete") && len(x.Call.Args) > 0 {
+					m = x.Call.Args[0]
+				}
+			}
+			if m == nil {
+				return
+			}
+			nTally++
+			if field, shared := fromService(m); shared {
+				nShared++
+				r.Violate("C07.o", fmt.Sprintf("%s|tally-in-service|%s#%d", core.FnKey(f), field, nShared), p.Pos(in.Pos()), "a collection written while responses are counted ("+field+") is held in the service and so shared by overlapping requests: one request's tally is cleared or polluted by another's, and the root returned can be one no node reported for the block asked about")
+			}
+		})
+	}
+	if nShared == 0 {
+		r.Hold("C07.o", "majority|tallies-are-per-call", "", fmt.Sprintf("%d collection writes in the majority strategies, none on a collection held in a service", nTally))
+	}
+	r.Floor("C07.o collection writes in majority strategies", nTally, 4)
+
 	// ---- (g) majority threshold ----
 	nThr := 0
 	for _, f := range fns {
@@ -952,4 +1079,49 @@ func isFieldGetter(fn *ssa.Function) bool {
 	ld, ok2 := real[1].(*ssa.UnOp)
 	ret, ok3 := real[2].(*ssa.Return)
 	return ok1 && ok2 && ok3 && fa.X == ssa.Value(fn.Params[0]) && ld.X == ssa.Value(fa) && len(ret.Results) == 1 && ret.Results[0] == ssa.Value(ld)
+}
+
+// decidingIf is a branch one of whose edges can still reach a target instruction while the other cannot.
+type decidingIf struct {
+	If       *ssa.If
+	SkipEdge int
+}
+
+// decidingIfs lists the branches of f that decide whether target is reached.
+func decidingIfs(f *ssa.Function, target ssa.Instruction) []decidingIf {
+	reach := map[*ssa.BasicBlock]bool{target.Block(): true}
+	for changed := true; changed; {
+		changed = false
+		for _, b := range f.Blocks {
+			if reach[b] {
+				continue
+			}
+			for _, s := range b.Succs {
+				if reach[s] {
+					reach[b] = true
+					changed = true
+				}
+			}
+		}
+	}
+	var out []decidingIf
+	for _, b := range f.Blocks {
+		if !reach[b] || len(b.Instrs) == 0 || b == target.Block() {
+			continue
+		}
+		ifi, ok := b.Instrs[len(b.Instrs)-1].(*ssa.If)
+		if !ok {
+			continue
+		}
+		r0, r1 := reach[b.Succs[0]], reach[b.Succs[1]]
+		if r0 == r1 {
+			continue
+		}
+		skip := 0
+		if r0 {
+			skip = 1
+		}
+		out = append(out, decidingIf{ifi, skip})
+	}
+	return out
 }
